@@ -993,7 +993,15 @@ func (x *Exec) indexAddr(st *State, xs, idx Value, resT types.Type, pos token.Po
 		at := u.Elem().Underlying().(*types.Array)
 		pi := x.ptrInfo(xs)
 		if pi.Kind != PArr {
-			panic(unsupported("index through pointer to array embedded in an object"))
+			// array embedded in an object (struct field, slice element): its elements are leaves of
+			// the container; only literal indices select a static leaf offset
+			x.boundsObl(st, "index", x.inRange(i, x.C.BVI(at.Len(), 64)), pos, "index in range")
+			if !i.IsLit() {
+				panic(unsupported("symbolic index into an array embedded in an object"))
+			}
+			npi := pi
+			npi.Off += int(i.Val.Int64()) * len(LayoutOf(at.Elem()).Leaves)
+			return Value{T: resT, L: xs.L, P: &npi}
 		}
 		x.boundsObl(st, "index", x.inRange(i, x.C.BVI(at.Len(), 64)), pos, "index in range")
 		return Value{T: resT, L: xs.L, P: &PtrInfo{Kind: PElem, Root: at.Elem(), Idx: i}}
